@@ -184,7 +184,7 @@ def vary_cases(draw):
                               min_size=2, max_size=2, unique=True))
     field = draw(st.sampled_from(["uid", "user_id", "k9"]))
     base = draw(st.integers(0, 10 ** 6))
-    kind = draw(st.sampled_from(["int", "str", "padded"]))
+    kind = draw(st.sampled_from(["int", "str", "padded", "decimal", "fraction", "bigint"]))
     return {"ws": ws, "salts": salts, "field": field, "base": base, "kind": kind,
             "cond": draw(st.booleans())}
 
@@ -195,6 +195,16 @@ def _units(case, n):
         return [b + i for i in range(n)]
     if case["kind"] == "str":
         return ["user-%d" % (b + i) for i in range(n)]
+    if case["kind"] == "decimal":
+        import decimal
+
+        return [decimal.Decimal(10 ** 20 + b + i) for i in range(n)]  # NUMERIC(21,0) ids: distinct, though all the same double
+    if case["kind"] == "fraction":
+        import fractions
+
+        return [fractions.Fraction(10 ** 20 + b + i, 1) for i in range(n)]
+    if case["kind"] == "bigint":
+        return [2 ** 62 + b + i for i in range(n)]
     return ["%010d" % (b + i) for i in range(n)]
 
 
@@ -316,4 +326,10 @@ def run(ctx, rec):
     runner.hyp_run(ctx, rec, "twins", cases(), judge, ctx.n(400, 2500))
     if rec.violations:
         return
+    if ctx.shard == 0:
+        fixed_vary = [{"ws": ["1", "2", "1", "3"], "salts": ["a", "b"], "field": "uid", "base": 7, "kind": k, "cond": c}
+                      for k in ("int", "str", "padded", "decimal", "fraction", "bigint") for c in (False, True)]
+        runner.direct_run(ctx, rec, "varies-fixed", fixed_vary, judge_vary)
+        if rec.violations:
+            return
     runner.hyp_run(ctx, rec, "varies", vary_cases(), judge_vary, ctx.n(40, 300))
